@@ -188,7 +188,13 @@ func (e *Engine) stub2(fn *ssa.Function, args []any) (any, bool) {
 
 func (e *Engine) intrinsic2(name string, args []any) (any, bool) {
 	switch name {
+	case "Garbage": // bytes that no decoder accepts: first byte 0xFF (invalid protobuf wire type, outside the base64/base58 alphabets)
+		n := e.input("String", args[0].(string))
+		e.S.Send(fmt.Sprintf("(assert (and (<= (str.len %s) %d) (str.prefixof \"\\u{ff}\" %s)))", n, args[1].(int64), n))
+		e.bounds[fmt.Sprintf("%s: garbage bytes, 1 <= len <= %d", args[0].(string), args[1].(int64))] = true
+		return BytesV{E: n}, true
 	case "Bytes":
+		e.bounds[fmt.Sprintf("%s: arbitrary bytes, len <= %d", args[0].(string), args[1].(int64))] = true
 		n := e.input("String", args[0].(string))
 		e.S.Send(fmt.Sprintf("(assert (<= (str.len %s) %d))", n, args[1].(int64)))
 		e.S.Send(fmt.Sprintf("(assert (not (str.prefixof \"\\u{1}\" %s)))", n))
@@ -198,11 +204,7 @@ func (e *Engine) intrinsic2(name string, args []any) (any, bool) {
 	case "X25519Priv": // 32-byte private scalar of universe key k (distinct per k)
 		return BytesV{E: "(x25519priv " + intE(args[0]) + ")"}, true
 	case "X25519Pub":
-		pr := "(x25519priv " + intE(args[0]) + ")"
-		pub := "(x25519pub " + pr + ")"
-		x25519PubOf[pub] = pr
-		e.S.Send("(assert (= (str.len " + pub + ") 32))")
-		return BytesV{E: pub}, true
+		return BytesV{E: e.x25519Pub("(x25519priv " + intE(args[0]) + ")")}, true
 	case "SecretFree": // no secret occurs in clear in any byte/string field of the message
 		var leaves []string
 		var walk func(v any, seen map[*[]any]bool)
